@@ -26,6 +26,7 @@ var c07Plan = []planEntry{
 	{spaces.B, 5, 6},
 	{spaces.L, 3, 4},
 	{spaces.XPhrase, 4, 5},
+	{spaces.XInfo, 4, 5},
 }
 
 func hasRawNodes(blocks []*cm.RootBlock) bool {
